@@ -206,6 +206,35 @@ pub fn execute(v: &Value) -> String {
         })
     }));
 
+    // "touch": every note is re-submitted with its own text before the rename, so that the rename
+    // runs on a server whose reference index went through updates (merge-only index, tombstones)
+    // and not only on a freshly started one; the library is the same, the model's answer too
+    // (C04_index_no_history: the getters answer the live links of the current arena)
+    let mut server = server;
+    // (not for libraries holding a list item that starts with a list: open finding F-ITEMLEAD
+    // corrupts the arena on update, which is C04/C20's business)
+    fn lead_list(bs: &[DocumentBlock]) -> bool {
+        bs.iter().any(|b| match b {
+            DocumentBlock::BulletList(l) => l.items.iter().any(|it| matches!(it.first(), Some(DocumentBlock::BulletList(_)) | Some(DocumentBlock::OrderedList(_))) || lead_list(it)),
+            DocumentBlock::OrderedList(l) => l.items.iter().any(|it| matches!(it.first(), Some(DocumentBlock::BulletList(_)) | Some(DocumentBlock::OrderedList(_))) || lead_list(it)),
+            DocumentBlock::BlockQuote(q) => lead_list(&q.blocks),
+            _ => false,
+        })
+    }
+    let touchable = sorted.iter().all(|(_, t)| {
+        catch_unwind(AssertUnwindSafe(|| MarkdownReader::new().document(t))).map(|d| !lead_list(&d.blocks)).unwrap_or(false)
+    });
+    if v["touch"].as_bool() == Some(true) && touchable {
+        if let Ok(srv) = server.as_mut() {
+            for (name, text) in &sorted {
+                let params = DidChangeTextDocumentParams {
+                    text_document: VersionedTextDocumentIdentifier { uri: uri_of(name), version: 2 },
+                    content_changes: vec![TextDocumentContentChangeEvent { range: None, range_length: None, text: text.clone() }],
+                };
+                let _ = catch_unwind(AssertUnwindSafe(|| srv.handle_did_change_text_document(params)));
+            }
+        }
+    }
     let mut attempts = vec![];
     if let Ok(server) = &server {
         for a in v["attempts"].as_array().cloned().unwrap_or_default() {
@@ -313,7 +342,7 @@ pub fn generate(rng: &mut Rng, thorough: bool) -> Vec<Value> {
         }
         let ext = if rng.chance(1, 4) { ".md" } else { "" };
         let attempts = attempts_for(rng, &notes, 6);
-        out.push(json!({"ext": ext, "kind": kind, "notes": notes.iter().map(|n| json!([n.0, n.1])).collect::<Vec<_>>(), "attempts": attempts}));
+        out.push(json!({"ext": ext, "kind": kind, "touch": i % 2 == 1, "notes": notes.iter().map(|n| json!([n.0, n.1])).collect::<Vec<_>>(), "attempts": attempts}));
     }
     out
 }
@@ -321,5 +350,5 @@ pub fn generate(rng: &mut Rng, thorough: bool) -> Vec<Value> {
 pub fn label(v: &Value) -> String {
     let n = v["notes"].as_array().map(|a| a.len()).unwrap_or(0);
     let a = v["attempts"].as_array().map(|a| a.len()).unwrap_or(0);
-    format!("{}:ext={}:notes={}:attempts={}", v["kind"].as_str().unwrap_or("?"), v["ext"].as_str().unwrap_or(""), n, a)
+    format!("{}:ext={}:notes={}:attempts={}{}", v["kind"].as_str().unwrap_or("?"), v["ext"].as_str().unwrap_or(""), n, a, if v["touch"].as_bool() == Some(true) { ":touched" } else { "" })
 }
